@@ -15,7 +15,10 @@ OUTER = TG.T("struct", f=[F_("R", "r", RANGE), F_("P", "p", TG.T("ptr", e=PTR)),
 WITHDEFAULTS = TG.T("struct", f=[F_("D", "d", DEFAULTS), F_("R", "r", RANGE), F_("K", "k", TG.T("int"))])
 TAGGED = TG.T("struct", f=[F_("Tags", "tags", TG.T("slice", e=TG.T("string"))), F_("Labels", "labels", TG.T("map", e=TG.T("string"))), F_("N", "n", TG.T("int")),
                           F_("Inner", "inner", TG.T("map", e=TG.T("struct", f=[F_("T", "t", TG.T("slice", e=TG.T("string")))])))])
-CATALOG = {"Tagged": TAGGED, "Range": RANGE, "Ptr": PTR, "Defaults": DEFAULTS, "Outer": OUTER, "WithDefaults": WITHDEFAULTS}
+PORTS = TG.T("struct", f=[F_("Name", "name", TG.T("string")), F_("Ports", "ports", TG.T("slice", e=TG.T("int"))),
+                            F_("ByName", "byname", TG.T("map", e=TG.T("int"))), F_("Fixed", "fixed", TG.T("array", n=2, e=TG.T("int"))),
+                            F_("Levels", "levels", TG.T("slice", e=TG.T("int"))), F_("One", "one", TG.T("int"))])
+CATALOG = {"Ports": PORTS, "Tagged": TAGGED, "Range": RANGE, "Ptr": PTR, "Defaults": DEFAULTS, "Outer": OUTER, "WithDefaults": WITHDEFAULTS}
 
 
 def range_cfg(rng, bad=False):
@@ -47,10 +50,12 @@ def defaults_cfg(rng, bad=False):
 
 
 def cat_case(rng):
-    cat = rng.wpick([(2, "Range"), (2, "Ptr"), (2, "Defaults"), (6, "Outer"), (3, "WithDefaults"), (4, "Tagged")])
+    cat = rng.wpick([(2, "Range"), (2, "Ptr"), (2, "Defaults"), (6, "Outer"), (3, "WithDefaults"), (4, "Tagged"), (4, "Ports")])
     ty = CATALOG[cat]
     if cat == "Tagged":
         return tagged_case(rng)
+    if cat == "Ports":
+        return ports_case(rng)
     spots = {"Range": ["self"], "Ptr": ["self"], "Defaults": ["self"], "Outer": ["r", "p", "l", "m", "n", "q"], "WithDefaults": ["d", "r"]}[cat]
     badspot = rng.pick(spots) if rng.chance(0.45) else None
     if cat == "Range": cfg = range_cfg(rng, badspot == "self")
@@ -82,6 +87,42 @@ def cat_case(rng):
     uopts = [opt(rng.pick(["Append", "Prepend", "Replace", "ReplaceArr"]))] if rng.chance(0.15) else []
     return {"k": "catalog", "cat": cat, "ty": ty, "old": old, "from": cfg, "copts": [], "uopts": uopts,
             "_tag": "catalog/" + cat, "_nt": True, "_sig": "cat|%s|%s|%s|%s" % (cat, badspot, "old" if old else "zero", ",".join(sorted(k for k, _ in cfg["m"])))}
+
+
+def ports_case(rng):
+    """named int types with Validate (pointer receiver: ports 0..65535; value receiver: levels <= 9) as elements of slices, maps and
+    arrays and as a plain field: set by the configuration or left as the caller pre-filled them, good or bad"""
+    def port(bad): return rng.pick([70000, -1, 65536]) if bad else rng.pick([0, 80, 443, 65535])
+    def level(bad): return rng.pick([10, 99]) if bad else rng.pick([0, 3, 9])
+    spots = ["ports", "byname", "fixed", "levels", "one"]
+    badcfg = rng.pick(spots) if rng.chance(0.3) else None
+    badold = rng.pick(spots) if rng.chance(0.4) else None
+    kv = []
+    if rng.chance(0.6): kv.append(("name", S("x")))
+    def lst(n, f, bad):
+        b = rng.below(n) if bad else -1
+        return [f(i == b) for i in range(n)]
+    if badcfg == "ports" or rng.chance(0.3): kv.append(("ports", A([I(x) for x in lst(1 + rng.below(3), port, badcfg == "ports")])))
+    if badcfg == "byname" or rng.chance(0.3):
+        xs = lst(1 + rng.below(2), port, badcfg == "byname"); kv.append(("byname", M([("k%d" % i, I(x)) for i, x in enumerate(xs)])))
+    if badcfg == "fixed" or rng.chance(0.3): kv.append(("fixed", A([I(x) for x in lst(2, port, badcfg == "fixed")])))
+    if badcfg == "levels" or rng.chance(0.3): kv.append(("levels", A([I(x) for x in lst(1 + rng.below(3), level, badcfg == "levels")])))
+    if badcfg == "one" or rng.chance(0.3): kv.append(("one", I(port(badcfg == "one"))))
+    cfg = M(rng.shuffle(kv))
+    old = None
+    if badold or rng.chance(0.6):
+        def iv(x): return {"i": str(x)}
+        ps = lst(rng.below(4) if badold != "ports" else 1 + rng.below(3), port, badold == "ports")
+        bn = lst(rng.below(3) if badold != "byname" else 1 + rng.below(2), port, badold == "byname")
+        old = {"st": [{"s": ""}, {"sl": [iv(x) for x in ps] if ps or rng.chance(0.5) else None},
+                      {"mp": {"p%d" % i: iv(x) for i, x in enumerate(bn)} if bn or rng.chance(0.5) else None},
+                      {"ar": [iv(x) for x in lst(2, port, badold == "fixed")]},
+                      {"sl": [iv(x) for x in lst(1 + rng.below(3), level, badold == "levels")]},
+                      iv(port(badold == "one"))]}
+    uopts = [opt(rng.pick(["Append", "Prepend", "Replace", "ReplaceArr"]))] if rng.chance(0.2) else []
+    return {"k": "catalog", "cat": "Ports", "ty": PORTS, "old": old, "from": cfg, "copts": [], "uopts": uopts,
+            "_tag": "catalog/Ports", "_nt": True,
+            "_sig": "cat|Ports|%s|%s|%s" % (badcfg, badold, ",".join(sorted(k for k, _ in cfg["m"])))}
 
 
 def tagged_case(rng):
